@@ -29,7 +29,8 @@ LEVEL_TEXT = (
 LEVEL_NOTE = (
     'Partial: range_values_once holds only under the no-truncation guard (known finding D6, full statement kept '
     'as a comment with the counter-example range_truncated); sheet names with a comma are known finding D0303 '
-    '(rect_shape carries the guard "no comma in the sheet name"). Trusted: Lean kernel, the hand models of '
+    '(rect_shape carries the guard "no comma in the sheet name"); a name on a cell that is empty at build time is '
+    'dropped and stays unbound when the cell is filled later (D0304, asserted by the repository tests). Trusted: Lean kernel, the hand models of '
     'openpyxl regular expressions, the correspondence harness; functions and operators are parameters of the '
     'evaluation theorems.')
 DESIGN_REF = '§4 C03'
@@ -60,7 +61,7 @@ ASSUMPTIONS = [
 
 MAX_COL = 18278
 MAX_ROW = 1048576
-LISTED_PRIORITY = ['D0303']     # workbook-level guard; D6 is decided per probe
+LISTED_PRIORITY = ['D0303', 'D0304']     # workbook-level guards; D6 is decided per probe
 
 
 # ---------------------------------------------------------------- small independent helpers
@@ -743,6 +744,13 @@ def fixed_scenarios():
         out.append((f'same-rectangle-two-sheets-{k}', {'default': S1, 'via': 'dict', 'names': [],
                     'cells': data + [_c(here, 16, 1, _f(a))], 'probes': [{'sheet': here, 'col': 16, 'row': 1}],
                     'shape': f'same-rectangle-{k}'}))
+    # D0304 (known): a name on a cell that is empty at build time, filled later
+    cs = [_c(S1, 1, 2, 7), _c(S1, 16, 1, _f(['b', 0, ['r', 'nm', 'n', 'nm', 0, 0, 0, 0], ['n', 0]])),
+          _c(S1, 16, 2, _f(['b', 0, ['r', '$A$1', 'c', None, 1, 1, 1, 1], ['r', 'A2', 'c', None, 1, 2, 1, 2]]))]
+    out.append(('D0304-witness', {'default': S1, 'via': 'dict', 'cells': cs,
+                'names': [{'name': 'nm', 'text': 'Sheet1!$A$1', 'kind': 'c', 'sheet': S1, 'c1': 1, 'r1': 1, 'c2': 1, 'r2': 1}],
+                'probes': [{'sheet': S1, 'col': 16, 'row': 1}, {'sheet': S1, 'col': 16, 'row': 2}, {'name': 'nm'}],
+                'updates': [{'sheet': S1, 'col': 1, 'row': 1, 'v': 5}], 'shape': 'D0304'}))
     # D0303: "," in a sheet name (range references only; the text before the comma is read as a cell)
     cs = [_c('P2,x', 1, 1, 3), _c('P2,x', 1, 2, 4), _c(S1, 16, 3, _f(['r', "'P2,x'!A1", 'c', 'P2,x', 1, 1, 1, 1])),
           _c(S1, 16, 4, _f(['u', 0, ['r', "'P2,x'!A1:A2", 'r', 'P2,x', 1, 1, 1, 2]]))]
@@ -792,7 +800,7 @@ class EvRunner:
             region = []
             if i < len(trunc) and trunc[i] == '1':
                 region.append('D6')
-            region += [f for f in LISTED_PRIORITY if f in flags]
+            region += [f for f in LISTED_PRIORITY if f in flags and (f != 'D0304' or i >= len(reals) // 2)]
             region = [f for f in region if f in self.listed]
             if region and nr == nm:
                 out.append((i, 'known', region[0]))
